@@ -209,4 +209,33 @@ def protect (s : List Char) : List Char :=
     (force = declaration-level `splicer:`, user = splicer file / splicer_code, default = generated body) -/
 def modelSplicerBranches : List (String × Bool) := [("force", true), ("user", true), ("default", false)]
 
+/-! ### emitter configuration and call sequences -/
+
+/-- value of the option a table row names: 0 `C_line_length`, 1 `F_line_length`; other codes: not an option -/
+def optValue (code cLen fLen : Nat) : Option Nat :=
+  if code = 0 then some cLen else if code = 1 then some fLen else none
+
+/-- `self.linelen` and `self.cont` as the `__init__` of emitter `e` sets them, read off the regenerated table
+    `(emitter, option, addend, marker)`: the option's value plus the addend. -/
+def emitterCfg (tbl : List (Nat × Nat × Int × List Nat)) (e cLen fLen : Nat) : Option (Nat × List Char) :=
+  match tbl.find? (fun r => r.1 == e) with
+  | some (_, code, add, cont) =>
+    match optValue code cLen fLen with
+    | some v => some (((v : Int) + add).toNat, cont.map Char.ofNat)
+    | none => none
+  | none => none
+
+/-- the physical lines emitter `e` of a library with options `C_line_length = cLen`, `F_line_length = fLen` writes for
+    one logical line (`write_continue` on the instance as `__init__` configured it) -/
+def emitterWrite (tbl : List (Nat × Nat × Int × List Nat)) (e cLen fLen : Nat) (indent : Int)
+    (spaces line : List Char) : Option (List (List Char)) :=
+  match emitterCfg tbl e cLen fLen with
+  | some (ll, cont) => some (render cont (wcBodies { linelen := ll, indent, spaces } line))
+  | none => none
+
+/-- A session: the calls made on one instance / in one process, in order.  `write_continue` keeps nothing between
+    calls, so a session is the list of the individual results. -/
+def wcSession (calls : List (Cfg × List Char × List Char)) : List (List (List Char)) :=
+  calls.map fun q => render q.2.1 (wcBodies q.1 q.2.2)
+
 end Shroud.Lines
